@@ -355,9 +355,17 @@ pub fn rec_words(ch: &mut Chunker, line: &str, sep: Sep) {
 
 /// split_words on the words found by the ASCII separator in `line` (so that whitespace is attached)
 pub fn rec_split(ch: &mut Chunker, line: &str, sp: Splitter) {
+    rec_split_pre(ch, line, sp, Splitter::None)
+}
+
+/// The same, but the input words are first split with `pre`, so that they carry penalties of their own
+/// (split_words must keep the original whitespace and penalty on the last piece only).
+pub fn rec_split_pre(ch: &mut Chunker, line: &str, sp: Splitter, pre: Splitter) {
     let splitter = sp.to_splitter();
-    let r = guarded(&|| format!("split_words({:?}, {:?})", line, sp), || {
-        let words: Vec<Word<'_>> = WordSeparator::AsciiSpace.find_words(line).collect();
+    let presplitter = pre.to_splitter();
+    let r = guarded(&|| format!("split_words({:?}, {:?}, pre {:?})", line, sp, pre), || {
+        let found: Vec<Word<'_>> = WordSeparator::AsciiSpace.find_words(line).collect();
+        let words: Vec<Word<'_>> = if pre == Splitter::None { found } else { textwrap::word_splitters::split_words(found, &presplitter).collect() };
         let pts: Vec<Vec<usize>> = words.iter().map(|w| splitter.split_points(w.word)).collect();
         let pieces: Vec<Word<'_>> = textwrap::word_splitters::split_words(words.clone(), &splitter).collect();
         (words, pts, pieces)
@@ -371,10 +379,10 @@ pub fn rec_split(ch: &mut Chunker, line: &str, sp: Splitter) {
                 let v: Vec<i64> = ps.iter().map(|&b| if w.word.is_char_boundary(b) { char_pos(line, base + b) } else { -1 }).collect();
                 pj.push(v);
             }
-            json!({"ev": "split", "splitter": sp.name(), "s": ch.cps(line), "words": words_json(ch, line, &words), "pts": pj,
+            json!({"ev": "split", "splitter": sp.name(), "pre": pre.name(), "s": ch.cps(line), "words": words_json(ch, line, &words), "pts": pj,
                    "res": words_json(ch, line, &pieces), "status": "ok"})
         }
-        Err(m) => json!({"ev": "split", "splitter": sp.name(), "s": ch.cps(line), "words": [], "pts": [], "res": [], "status": "panic", "msg": m}),
+        Err(m) => json!({"ev": "split", "splitter": sp.name(), "pre": pre.name(), "s": ch.cps(line), "words": [], "pts": [], "res": [], "status": "panic", "msg": m}),
     };
     ch.push(ev);
 }
